@@ -39,6 +39,8 @@ def run(ctx):
         "(TLC already validated the identical reference stream in the generator run)",
     ]
     vlib.build_harness(["drv_dataset"])
+    if P.replay(ctx, "C04"):
+        return
     env = P.driver_env(ctx)
     sweeps = ["vr", "struct"] + ([] if q else ["struct3"])
     jobs = P.ds_jobs(ctx, sweeps)
